@@ -3,7 +3,7 @@
    array_global_index / array_owner are generated from array.ipp. *)
 From Coq Require Import ZArith List Bool Lia.
 Import ListNotations.
-From Ygm Require Import Gen.CArith Gen.Gen_array Partition.
+From Ygm Require Import Gen.CArith Gen.Gen_array Partition ContainerModel.
 Local Open Scope Z_scope.
 
 Theorem C13_index_roundtrip : forall len R i,
@@ -27,3 +27,18 @@ Theorem C13_local_length : forall v0 len R r,
   = Some (len, blk_small len R, blk_large len R, blk_size len R r, blk_start len R r).
 Proof. exact Gen_array_resize_correct. Qed.
 Print Assumptions C13_local_length.
+
+(* the array is an owner-partitioned container over indices: any execution order equals the sequential
+   application on one global vector, and an update changes the addressed element only *)
+Theorem C13_array_refines_vector : forall (owner : Z -> nat) (dflt : Z) (ops : list (Z * cop)) (L : lstate Z), owned Z owner L ->
+  (forall i, abs Z owner (fold_left (fun L ko => lstep Z Z.eq_dec owner dflt ko L) ops L) i
+             = fold_left (fun g ko => gstep Z Z.eq_dec dflt ko g) ops (abs Z owner L) i)
+  /\ owned Z owner (fold_left (fun L ko => lstep Z Z.eq_dec owner dflt ko L) ops L).
+Proof. exact (refines_sequential Z Z.eq_dec). Qed.
+Print Assumptions C13_array_refines_vector.
+
+Theorem C13_update_hits_only_the_addressed_element : forall dflt ops (g : gstate Z) i,
+  fold_left (fun g ko => gstep Z Z.eq_dec dflt ko g) ops g i
+  = fst (crun dflt (map snd (filter (fun ko => if Z.eq_dec (fst ko) i then true else false) ops)) (g i)).
+Proof. exact (per_key_projection Z Z.eq_dec). Qed.
+Print Assumptions C13_update_hits_only_the_addressed_element.
